@@ -38,3 +38,18 @@ package functions
 
 //@ func max
 //@   inline
+
+// The exported constructors return the closure over their argument (the closures' own contracts
+// are above).
+//@ func SqrtRootFunction
+//@   ensures[C04,C07] closure: isfunc(result, "limit/functions.SqrtRootFunction$1") && *captured(result, "limit/functions.SqrtRootFunction$1", 0) == baseline
+//@   assigns nothing
+//@ func Log10RootFunction
+//@   ensures[C04,C07,C08] closure: isfunc(result, "limit/functions.Log10RootFunction$1") && *captured(result, "limit/functions.Log10RootFunction$1", 0) == baseline
+//@   assigns nothing
+//@ func Log10RootFloatFunction
+//@   ensures[C04,C06] closure: isfunc(result, "limit/functions.Log10RootFloatFunction$1") && *captured(result, "limit/functions.Log10RootFloatFunction$1", 0) == baseline
+//@   assigns nothing
+//@ func FixedQueueSizeFunc
+//@   ensures[C04,C07] closure: isfunc(result, "limit/functions.FixedQueueSizeFunc$1") && *captured(result, "limit/functions.FixedQueueSizeFunc$1", 0) == queueSize
+//@   assigns nothing
